@@ -4,6 +4,7 @@ import (
 	"fmt"
 	"os"
 	"sort"
+	"strconv"
 	"strings"
 	"sync"
 	"sync/atomic"
@@ -84,6 +85,8 @@ type Explorer struct {
 	funcs    map[string]int64 // function -> instructions executed
 	stats    SolverStats
 	qlog     *queryLog
+	vectors       []nativeVector
+	wantNative    bool
 	symbolicToEnd map[string]bool
 	caseSplit     map[string]bool
 	incomplete    string
@@ -661,9 +664,48 @@ func (w *Worker) finishPath(end *PathEnd, m *Machine) {
 			sample = &Sample{Decisions: append([]int{}, w.taken...), Model: w.model(m), End: end.Kind, Steps: m.steps, Events: m.events}
 		}
 	}
+	// translator validation: sample this path as a native input vector
+	var vec *nativeVector
+	if e.wantNative && m != nil && (end.Kind == "ok" || end.Kind == "violation" || end.Kind == "panic") {
+		e.mu.Lock()
+		n, p := len(e.vectors), e.paths
+		e.mu.Unlock()
+		if n < 24 && (p < 3 || p%61 == 7 || (end.Kind != "ok" && n < 16) || e.cfg.Mode == "all") {
+			model := w.model(m)
+			v := nativeVector{Params: e.cfg.Params, Expect: end.Kind, Label: end.Msg}
+			okv := true
+			for _, r := range m.primLog {
+				if r.e != "" {
+					mv, has := model[r.e]
+					if !has {
+						okv = false
+						break
+					}
+					switch r.P {
+					case "bool":
+						r.V = mv
+					case "atom":
+						c, _ := parseSMTInt(mv)
+						r.V = m.strOfCode(c)
+					default:
+						c, _ := parseSMTInt(mv)
+						r.V = strconv.FormatInt(c, 10)
+					}
+				}
+				v.Log = append(v.Log, r)
+			}
+			if okv {
+				vec = &v
+			}
+		}
+	}
 	w.solver.EndPath()
 	e.mu.Lock()
 	defer e.mu.Unlock()
+	if vec != nil && len(e.vectors) < 24 {
+		vec.ID = len(e.vectors)
+		e.vectors = append(e.vectors, *vec)
+	}
 	e.paths++
 	if m != nil {
 		e.steps += int64(m.steps)
